@@ -4,7 +4,7 @@ import random
 from .. import common, evidence, oalcheck, oalgen, replay, trace
 
 PID = 'C05'
-HOMES = ['func', 'bridge', 'op', 'derived', 'state']
+HOMES = ['func', 'bridge', 'op', 'derived', 'state', 'transition']
 
 
 def corpus(tier, seed):
@@ -12,7 +12,7 @@ def corpus(tier, seed):
     progs = []
     n = 120 if tier == 'quick' else 2500
     for k in range(n):
-        home = HOMES[k % 5]
+        home = HOMES[k % 6]
         g = oalgen.Gen(random.Random(rnd.randint(0, 10 ** 9)), maxdepth=rnd.choice([2, 3, 3]), parens=0.1, syntax_only=False)
         g.calls = True
         g.home = home
@@ -20,7 +20,7 @@ def corpus(tier, seed):
         g.arrays = True
         g.casevars = (k % 3 == 1)
         g.no_division = False
-        body = g.program(nstmts=rnd.randint(2, 7), setup=(k % 3 == 0), final_return=(home not in ('derived', 'state')))
+        body = g.program(nstmts=rnd.randint(2, 7), setup=(k % 3 == 0), final_return=(home not in ('derived', 'state', 'transition')))
         if home == 'derived':
             body.append(oalgen.Assign(oalgen.Field({'t': 'self'}, 'Calc'), g.expr('int')))
         progs.append((home, body))
@@ -117,7 +117,7 @@ def check(tier, replay_path=None):
              'operation / bridge invocations as statements and inside expressions with by-name parameters in any order, parameter '
              'reads, enumerators, constants; event statements: generate to an instance / creator / class state machine, create event '
              'instance, generate of an event instance, data items by name in any order) placed as the action of a function, a bridge, an '
-             'instance operation, a derived attribute or a state (data items of the received event read as param / rcvd_evt) '
+             'instance operation, a derived attribute, a state or a transition - also a creation transition - (data items of the received event read as param / rcvd_evt) '
              'of a synthesised BridgePoint model, rendered with random layout and keyword case, prebuilt (prebuild_action) and turned '
              'back into text (gen_text_action); TLC requires that the generated text parses, that its tree equals the tree the body '
              'was written for (OalSyntax!StripB) and that prebuilding the generated text generates the same text again',
@@ -127,9 +127,8 @@ def check(tier, replay_path=None):
             'parser makes of the original text; the optional words bridge / transform and the specification name in front of a '
             'constant are not compared there (the originals leave them out, the generator writes them)',
             'port messages, signals, polymorphic events and events of external entities are not in this corpus (no ports are '
-            'synthesised); transition actions are not (state actions are); arrays are variables (no array-valued attributes or '
-            'parameters)',
-            'in a state action the null PP_Id of a V_EPR instance (data item of a state machine event, no property parameter) is '
+            'synthesised)',
+            'in a state or transition action the null PP_Id of a V_EPR instance (data item of a state machine event, no property parameter) is '
             'not counted as a uniqueness violation: the ooaofooa schema makes PP_Id part of the identifier of V_EPR',
             'the callables an action invokes are declared in the model with stub bodies',
         ])
